@@ -128,7 +128,7 @@ def cmp_K(op, a, b, ctx):
         ea, eb = model.slots[op["a"]], model.slots[op["b"]]
         L = geom.scale_L([(ea["spec"], ea["pose"]), (eb["spec"], eb["pose"])])
         fn = op["fn"]
-        tol = (1e-5 if fn in ("jolt_distance", "jolt_distance_noclip", "epa") else 1e-3) * L
+        tol = (1e-5 if fn in ("jolt_distance", "jolt_distance_noclip", "epa", "epa_big") else 1e-3) * L
         for key in ("r", "tw"):
             ra, rb = a.get(key), b.get(key)
             if not isinstance(ra, dict) or not isinstance(rb, dict):
